@@ -350,20 +350,34 @@ struct frame_rec {
 
 static constexpr std::size_t KIND_N[4] = {8, 72, 300, 1500};
 
+#define VH_CORO_BODY(SALT)                                   \
+    unsigned char buf[N];                                    \
+    std::memset(buf, fr->pat, N);                            \
+    fr->local = buf;                                         \
+    fr->local_n = N;                                         \
+    co_await fr->g;                                          \
+    int ok = (SALT) == 7 ? 1 : 0;                            \
+    for (std::size_t i = 0; i < N; ++i)                      \
+        if (buf[i] != fr->pat) ok = 0;                       \
+    fr->body_check = ok;                                     \
+    fr->finished = true;                                     \
+    co_return;
+
+// free function: promise operator new(size_t, Allocator&, Args...)
 template <typename S, std::size_t N>
 with_allocator<S, async<void>> coro_fn(S &, frame_rec *fr) {
-    unsigned char buf[N];
-    std::memset(buf, fr->pat, N);
-    fr->local = buf;
-    fr->local_n = N;
-    co_await fr->g;
-    int ok = 1;
-    for (std::size_t i = 0; i < N; ++i)
-        if (buf[i] != fr->pat) ok = 0;
-    fr->body_check = ok;
-    fr->finished = true;
-    co_return;
+    VH_CORO_BODY(7)
 }
+
+// non-static member function: promise operator new(size_t, This&, Allocator&, Args...)
+struct coro_host {
+    int salt = 7;
+    template <typename S, std::size_t N>
+    with_allocator<S, async<void>> member_fn(S &, frame_rec *fr) {
+        VH_CORO_BODY(salt)
+    }
+};
+static coro_host g_host;
 
 struct ext_buf {
     char *base;
@@ -487,7 +501,11 @@ static std::string op_alloc(seq_state &st, S &stor, std::size_t sz, int kind /* 
                 case 0: return coro_fn<S, KIND_N[0]>(stor, &f);
                 case 1: return coro_fn<S, KIND_N[1]>(stor, &f);
                 case 2: return coro_fn<S, KIND_N[2]>(stor, &f);
-                default: return coro_fn<S, KIND_N[3]>(stor, &f);
+                case 3: return coro_fn<S, KIND_N[3]>(stor, &f);
+                case 4: return g_host.member_fn<S, KIND_N[0]>(stor, &f);
+                case 5: return g_host.member_fn<S, KIND_N[1]>(stor, &f);
+                case 6: return g_host.member_fn<S, KIND_N[2]>(stor, &f);
+                default: return g_host.member_fn<S, KIND_N[3]>(stor, &f);
             }
         };
         // `c` is the coroutine object: the frame exists, nothing of the body has run yet
@@ -624,7 +642,7 @@ static void seq_loop(seq_state &st, Pol &pol, std::function<std::string(const st
             head = pol.has(k) ? op_alloc(st, pol.sel(k), sz, -1) : "skip";
         } else if ((w[0] == "coro" || w[0] == "cdrop") && w.size() >= 3) {
             std::size_t k = std::strtoul(w[1].c_str(), nullptr, 10);
-            int kind = std::atoi(w[2].c_str()) & 3;
+            int kind = std::atoi(w[2].c_str()) & 7;
             head = pol.has(k) ? op_alloc(st, pol.sel(k), w[0] == "cdrop" ? std::size_t(-2) : 0, kind) : "skip";
         } else if ((w[0] == "free" || w[0] == "fin" || w[0] == "kill") && w.size() >= 2) {
             head = op_free<S>(st, std::strtoul(w[1].c_str(), nullptr, 10), w[0] == "kill" ? "kill" : "fin");
@@ -766,7 +784,7 @@ static void print_sizes(const char *name, A &&...a) {
     single_policy<St> pol;
     pol.make(std::forward<A>(a)...);
     std::cout << "sizes " << name;
-    for (int k = 0; k < 4; ++k) {
+    for (int k = 0; k < 8; ++k) {
         (void)op_alloc(st, pol.sel(0), std::size_t(-2), k);
         std::cout << " " << st.frames.back()->sz;
     }
@@ -1025,6 +1043,8 @@ int main(int argc, char **argv) {
     if (argc > 1 && std::string(argv[1]) == "--sizes") {
         seq_state dummy;
         print_sizes<default_storage>("default");
+        std::cout.flush();
+        if (argc > 2) return 0;      // `--sizes default`: only the plain policy (the others serve as a cross-check)
         print_sizes<reusable_storage>("reusable");
         print_sizes<reusable_storage_mtsafe>("mtsafe");
         std::uint64_t tag = 0;
